@@ -176,6 +176,34 @@ func (c *vhPacketConn) SetDeadline(t time.Time) error      { return nil }
 func (c *vhPacketConn) SetReadDeadline(t time.Time) error  { return nil }
 func (c *vhPacketConn) SetWriteDeadline(t time.Time) error { return nil }
 
+// queue-backed packet conn for the serve_burst op: ReadFrom hands out the queued datagrams one after the other
+type vhQueueConn struct {
+	in   chan []byte
+	idle chan struct{}
+	mu   sync.Mutex
+	sent []vhPacket
+}
+
+func (c *vhQueueConn) ReadFrom(p []byte) (int, net.Addr, error) {
+	c.idle <- struct{}{}
+	b, ok := <-c.in
+	if !ok {
+		return 0, nil, net.ErrClosed
+	}
+	return copy(p, b), &net.UDPAddr{IP: net.IPv4(127, 0, 0, 1), Port: 1}, nil
+}
+func (c *vhQueueConn) WriteTo(p []byte, addr net.Addr) (int, error) {
+	c.mu.Lock()
+	defer c.mu.Unlock()
+	c.sent = append(c.sent, vhPacket{Dst: addr.String(), Bytes: hex.EncodeToString(p)})
+	return len(p), nil
+}
+func (c *vhQueueConn) Close() error                       { return nil }
+func (c *vhQueueConn) LocalAddr() net.Addr                { return &net.UDPAddr{} }
+func (c *vhQueueConn) SetDeadline(t time.Time) error      { return nil }
+func (c *vhQueueConn) SetReadDeadline(t time.Time) error  { return nil }
+func (c *vhQueueConn) SetWriteDeadline(t time.Time) error { return nil }
+
 type vhNode struct {
 	idx      int
 	id, addr string
@@ -591,6 +619,66 @@ func (w *vhWorld) step(op vhOp) (obs vhObs) {
 			}
 		}()
 		wg.Wait()
+	case "round":
+		// the real peer selection: node N runs I gossip rounds (Gossip.gossipRound); the destinations of every round are
+		// recorded, the packets of the last round stay in flight
+		n := w.nodes[op.N%nn]
+		iters := op.I
+		if iters <= 0 {
+			iters = 1
+		}
+		n.g.config.MaxPacketSize = 1400
+		rounds := [][]string{}
+		errs := 0
+		for i := 0; i < iters; i++ {
+			w.sent = nil
+			if err := n.g.gossipRound(); err != nil {
+				errs++
+			}
+			dsts := []string{}
+			for _, p := range w.sent {
+				dsts = append(dsts, vhHex(p.Dst))
+			}
+			rounds = append(rounds, dsts)
+		}
+		obs.Extra = map[string]any{"rounds": rounds, "errs": errs}
+	case "serve_burst":
+		// the real receive loop: every packet in flight to node N (at most I of them when I > 0) is handed back to back
+		// to a real packetListener.Serve reading from a queue; the op ends when the loop asks for the packet after the
+		// last one (plus a grace period in which anything still running in the background may finish)
+		n := w.nodes[op.N%nn]
+		var idxs []int
+		var burst []vhPacket
+		var rest []vhPacket
+		for i, p := range w.inflight {
+			if p.Dst == n.addr && (op.I <= 0 || len(burst) < op.I) {
+				idxs = append(idxs, i)
+				burst = append(burst, p)
+			} else {
+				rest = append(rest, p)
+			}
+		}
+		w.inflight = rest
+		qc := &vhQueueConn{in: make(chan []byte), idle: make(chan struct{}, len(burst)+2)}
+		pl := newPacketListener(qc, n.state, n.fd, 1400, newMetrics(), log.NewNopLogger())
+		done := make(chan struct{})
+		go func() { pl.Serve(); close(done) }()
+		for _, p := range burst {
+			b, _ := hex.DecodeString(p.Bytes)
+			qc.in <- b
+		}
+		// wait until the loop is back in ReadFrom after the last packet
+		for got := 0; got < len(burst)+1; got++ {
+			<-qc.idle
+		}
+		time.Sleep(30 * time.Millisecond)
+		close(qc.in)
+		<-done
+		time.Sleep(10 * time.Millisecond)
+		qc.mu.Lock()
+		w.sent = append(w.sent, qc.sent...)
+		qc.mu.Unlock()
+		obs.Extra = map[string]any{"burst": idxs}
 	case "join":
 		a, b := w.nodes[op.A%nn], w.nodes[op.B%nn]
 		id, err := a.g.join(b.slAddr)
